@@ -215,6 +215,12 @@ func classify(t lex.Token) Tok {
 // lexAll runs the real lexer over the input (bounded, so a lexer that never reaches EOF shows up
 // as such instead of hanging the harness).
 func lexAll(q string) (toks []Tok, lexErr bool, runaway bool) {
+	defer func() {
+		if p := recover(); p != nil { // a panicking lexer: report what was lexed so far plus an error token
+			toks = append(toks, Tok{T: "ERR", V: "ERR", Raw: "lexer panic"})
+			lexErr = true
+		}
+	}()
 	l := lex.Lex(q)
 	for i := 0; i <= len(q)+2; i++ {
 		t := l.Next()
